@@ -227,10 +227,10 @@ func verifConstRound(c any) (any, bool, bool) {
 
 // Dispositions of the map-range loops of package compiler:
 //   commute-proved: definitionFromSymbolTable#1 symbolTableFromDefinition#1
-//   compileFunc#1 (parameter defaults): which "unsupported default value" error is reported first depends on the
-//   order; on success the loop fills defaults[index] per key (order independent) - undecided here (calls fmt).
+//   compileFunc no longer ranges over the map of parameter defaults (KF-71 fixed: which "unsupported default
+//   value" error was reported depended on the order); it walks the parameter names in source order.
 //   compileMap no longer ranges over a Go map (KF-11 fixed): it iterates ast.(*Map).SortedKeys().
-//@ scan[C05.maploops.compiler] C05 maprange compiler: definitionFromSymbolTable#1 symbolTableFromDefinition#1 (*Compiler).compileFunc#1
+//@ scan[C05.maploops.compiler] C05 maprange compiler: definitionFromSymbolTable#1 symbolTableFromDefinition#1
 
 // compiler.New inserts the global names in sorted order (mechanism "global names sorted before symbol
 // insertion"): the insertion loop runs over a sorted slice whatever order the caller supplied.
